@@ -39,9 +39,9 @@ def ovrlist(e): return {'op': 'ovrlist', 'e': e}
 def skipto(e): return {'op': 'skipto', 'e': e}
 
 
-def rule(name, exp, isname=False, nomemo=False, lrec=False, memo=True, params=()):
+def rule(name, exp, isname=False, nomemo=False, lrec=False, memo=True, params=(), typ=()):
     return {'name': name, 'exp': exp, 'tokn': name.lstrip('_')[:1].isupper(), 'isname': isname, 'nomemo': nomemo,
-            'lrec': lrec, 'memo': memo, 'params': list(params)}
+            'lrec': lrec, 'memo': memo, 'params': list(params), 'typ': list(typ)}
 
 
 def grammar(*rules, keywords=()):
@@ -85,6 +85,8 @@ def unval(v):
         return {('@' if k == '@' else k): unval(x) for k, x in v['v']}
     if t == 'g':
         return {'__tag__': v['r'], 'v': unval(v['v'])}
+    if t == 'o':
+        return {'__node__': v['cls'], 'bases': list(v['bases']), 'attrs': {k: unval(x) for k, x in v['v']}}
     raise ValueError(t)
 
 
@@ -211,7 +213,8 @@ def to_ebnf(g, directives=None, name=None):
         params = ''
         if r.get('params'):
             params = '[' + ', '.join(r['params']) + ']'
-        lines.append(f"{r['name']}{params} = {render(r['exp'])} ;")
+        typ = ''.join('::' + t for t in r.get('typ', []))
+        lines.append(f"{r['name']}{typ}{params} = {render(r['exp'])} ;")
     return '\n'.join(lines) + '\n'
 
 
